@@ -576,7 +576,7 @@ func (ex *Exec) tableOfRange(c0 *Cont, off, n int) *Table {
 	ok := true
 	for i := 0; i < n; i++ {
 		t, isT := c.v[off+i].(*Term)
-		if !isT || t.op != OpConst || t.w == 0 {
+		if !isT || t.op != OpConst {
 			ok = false
 			break
 		}
@@ -588,7 +588,12 @@ func (ex *Exec) tableOfRange(c0 *Cont, off, n int) *Table {
 		for _, v := range vals {
 			h = mix(h, v)
 		}
-		tb = ex.f.TableFor(fmt.Sprintf("arr:%d:%d:%x", w, n, h), vals, w, idxWidth(n))
+		tw := w
+		if tw == 0 {
+			tw = 1 // bool tables are stored as 1-bit vectors
+		}
+		tb = ex.f.TableFor(fmt.Sprintf("arr:%d:%d:%x", w, n, h), vals, tw, idxWidth(n))
+		tb.IsBool = w == 0
 	}
 	if cacheable {
 		if ex.f.contTables == nil {
